@@ -55,7 +55,7 @@ CHECKS = {
          "Held on the executions observed: about 3*10^5 strings per quick run.",
          "Trusted: rune counting as Go does it. A call that does not return is attributed through the on-disk progress marker and confirmed alone."),
  "C16": (M + "reflection-built probes: function types from reflect.FuncOf registered through the converting calls and invoked from scripts; reflect.MakeFunc probes record received arguments; conditional oracle (accepted => works) + unconditional must-refuse set; child-process crash containment for panics in the bridge goroutine",
-         "Held on the executions observed; all one-parameter signatures are enumerated completely in both tiers, all two-parameter and one-parameter-plus-variadic signatures in the thorough tier (30690 signatures), the rest PRNG-sampled; 10/24 script-side calls per accepted signature.",
+         "Held on the executions observed; all one-parameter signatures are enumerated completely in both tiers, all two-parameter, one-parameter-plus-variadic and three-parameter signatures in the thorough tier (360778 signatures), the rest PRNG-sampled; 10/24 script-side calls per accepted signature.",
          "Trusted: reflect; the conversion oracle stated in the evidence rule (range-checked integers, float32 only on representable values)."),
  "C18": (M + "Go race detector over concurrent creation and stepping of independent runners in fresh child processes (cold ANTLR caches), with sequential reference traces from another fresh process; no harness-side synchronisation during the concurrent phase",
          "Held on the executions observed: 16 (quick) / 400 (thorough) children with 2-64 goroutines each; zero race reports with a ysgo/antlr frame (plumbing confirmed by a canary); every concurrent trace equals its sequential reference.",
